@@ -463,7 +463,8 @@ func (s *Session) applyContract(fr *Frame, c *Contract, fn *ssa.Function, sig *t
 		subs := splitClause(rq)
 		for _, sub := range subs {
 			f := s.evalBool(se, sub.E)
-			s.addObl(&Obligation{Name: fmt.Sprintf("%s/pre@%s#%d.%s", fr.oblPfx, short, ord, clauseNameSplit(rq, i, sub, len(subs))), Kind: "pre", Func: fr.oblPfx, Src: "requires " + sub.Src + "   [callee " + ckey + "]", Guard: st.Reach, Formula: f})
+			g := s.evalGoal(se, sub.E)
+			s.addObl(&Obligation{Name: fmt.Sprintf("%s/pre@%s#%d.%s", fr.oblPfx, short, ord, clauseNameSplit(rq, i, sub, len(subs))), Kind: "pre", Func: fr.oblPfx, Src: "requires " + sub.Src + "   [callee " + ckey + "]", Guard: st.Reach, Formula: g})
 			s.assume(Imp(st.Reach, f)) // continue as if it held (avoid cascades)
 		}
 	}
@@ -652,6 +653,23 @@ func (s *Session) itemLocs(se *SpecEnv, item string) ([]modLoc, error) {
 	if strings.HasSuffix(item, ".*") {
 		allFields = true
 		item = strings.TrimSuffix(item, ".*")
+	}
+	if strings.HasPrefix(item, "ghost ") && strings.HasSuffix(item, "]") && strings.Contains(item, "[") {
+		// ghost NAME[EXPR]: one row of a 2-D ghost map
+		body := strings.TrimSpace(strings.TrimPrefix(item, "ghost "))
+		k := strings.Index(body, "[")
+		name := strings.TrimSpace(body[:k])
+		vs, ok := s.eng.db.Ghosts[name]
+		if !ok {
+			return nil, fmt.Errorf("unknown ghost map %s", name)
+		}
+		e, err := parseSpec(body[k+1 : len(body)-1])
+		if err != nil {
+			return nil, err
+		}
+		ref := s.materialize(s.evalSpec(se, e)).L[0]
+		se.st.Sorts["X:"+name] = ghostSort(vs)
+		return []modLoc{{heap: "X:" + name, sort: ghostSort(vs), ref: ref}}, nil
 	}
 	if strings.HasPrefix(item, "ghost ") {
 		name := strings.TrimSpace(strings.TrimPrefix(item, "ghost "))
@@ -1156,6 +1174,9 @@ func (s *Session) scanContractMods(c *Contract, fn *ssa.Function, sig *types.Sig
 		}
 		if strings.HasPrefix(it, "ghost ") {
 			name := strings.TrimSpace(strings.TrimPrefix(it, "ghost "))
+			if k := strings.Index(name, "["); k >= 0 {
+				name = name[:k] // one row of a 2-D ghost: the whole ghost counts as touched here
+			}
 			vs, ok := s.eng.db.Ghosts[name]
 			if !ok {
 				vs = etcdGhosts[name]
@@ -1165,6 +1186,35 @@ func (s *Session) scanContractMods(c *Contract, fn *ssa.Function, sig *types.Sig
 		}
 		if strings.HasPrefix(it, "all ") {
 			tf := strings.TrimSpace(strings.TrimPrefix(it, "all "))
+			if strings.HasSuffix(tf, ".*") {
+				okAll := false
+				func() {
+					defer func() { recover() }()
+					tt := s.resolveType(s.eng.typesPkg(c.Pkg), strings.TrimSuffix(tf, ".*"))
+					for _, l := range shape(tt) {
+						mods[heapName("F", typeKey(tt), l.Path)] = arrSort(l.Sort)
+					}
+					okAll = true
+				}()
+				if !okAll {
+					return true
+				}
+				continue
+			}
+			if strings.HasPrefix(tf, "map[") {
+				mt, okm := s.resolveMapType(s.eng.typesPkg(c.Pkg), tf)
+				if !okm {
+					return true
+				}
+				st0 := &State{Heap: map[string]T{}, Sorts: map[string]string{}}
+				domN, cardN, valN, valS, _ := s.mapHeaps(st0, mt)
+				mods[domN] = arrSort(arrSort(SBool))
+				mods[cardN] = arrSort(SInt)
+				for k := range valN {
+					mods[valN[k]] = valS[k]
+				}
+				continue
+			}
 			i := strings.LastIndex(tf, ".")
 			func() {
 				defer func() { recover() }()
@@ -1372,7 +1422,8 @@ func (s *Session) callSiteAsserts(fr *Frame, cc *ssa.CallCommon, st *State, inst
 		subs := splitClause(cl)
 		for _, sub := range subs {
 			f := s.evalBoolClauseAt(fr, sub, st, instr.Block(), idx)
-			s.addObl(&Obligation{Name: fmt.Sprintf("%s/%s@%s#%d.%s", fr.oblPfx, phase, name, k, clauseNameSplit(cl, i, sub, len(subs))), Kind: "assert", Func: fr.oblPfx, Src: "at call " + name + " (" + phase + "): " + sub.Src, Guard: st.Reach, Formula: f})
+			g := s.evalGoalClauseAt(fr, sub, st, instr.Block(), idx)
+			s.addObl(&Obligation{Name: fmt.Sprintf("%s/%s@%s#%d.%s", fr.oblPfx, phase, name, k, clauseNameSplit(cl, i, sub, len(subs))), Kind: "assert", Func: fr.oblPfx, Src: "at call " + name + " (" + phase + "): " + sub.Src, Guard: st.Reach, Formula: g})
 			s.assume(Imp(st.Reach, f))
 		}
 	}
